@@ -2,9 +2,26 @@
  * for LinkedGeoLoop): bounding box, point-in-loop at latitude 0 for every odd longitude unit, winding of the loop and of its
  * reverse.   drv_loopnorm run <quick|thorough> <seed> <out> */
 #include "vtrace.h"
+#if defined(__has_include)
+#if __has_include("polygon.h") && __has_include("linkedGeo.h") && __has_include("bbox.h")
 #include "polygon.h"
 #include "linkedGeo.h"
 #include "bbox.h"
+#define HAVE_LOOPS 1
+#endif
+#endif
+#ifndef HAVE_LOOPS
+int main(int argc, char **argv) { if (argc < 5) return 2; vt_open(argv[4]); fputs("{\"e\":\"loopNormAbsent\"}\n", vt_out); vt_close(); return 0; }
+#else
+/* internal functions: weak, so that a refactoring that removes one disables this binding instead of breaking the build */
+extern __typeof(bboxFromGeoLoop) bboxFromGeoLoop __attribute__((weak));
+extern __typeof(pointInsideGeoLoop) pointInsideGeoLoop __attribute__((weak));
+extern __typeof(isClockwiseGeoLoop) isClockwiseGeoLoop __attribute__((weak));
+extern __typeof(bboxFromLinkedGeoLoop) bboxFromLinkedGeoLoop __attribute__((weak));
+extern __typeof(pointInsideLinkedGeoLoop) pointInsideLinkedGeoLoop __attribute__((weak));
+extern __typeof(isClockwiseLinkedGeoLoop) isClockwiseLinkedGeoLoop __attribute__((weak));
+extern __typeof(addLinkedCoord) addLinkedCoord __attribute__((weak));
+extern __typeof(destroyLinkedGeoLoop) destroyLinkedGeoLoop __attribute__((weak));
 #define MM 18
 static double U(int x) { return x * M_PI / MM; }
 static int wrapu(int x) { return ((x + MM) % (2 * MM) + 2 * MM) % (2 * MM) - MM; }
@@ -18,6 +35,8 @@ static int build(LatLng *v, int w0, int W, int rev) {
 int main(int argc, char **argv) {
     if (argc < 5 || strcmp(argv[1], "run")) return 2;
     int quick = argv[2][0] == 'q'; vt_seed(strtoull(argv[3], 0, 10)); vt_open(argv[4]);
+    if (!bboxFromGeoLoop || !pointInsideGeoLoop || !isClockwiseGeoLoop || !bboxFromLinkedGeoLoop || !pointInsideLinkedGeoLoop || !isClockwiseLinkedGeoLoop || !addLinkedCoord || !destroyLinkedGeoLoop) {
+        fputs("{\"e\":\"loopNormAbsent\"}\n", vt_out); vt_close(); return 0; }
     for (int typ = 0; typ < 2; typ++) for (int w0 = -MM; w0 <= MM - 2; w0 += 2) for (int W = 2; W <= 2 * MM - 2; W += 2) {
         { int seam0 = w0 + W >= MM, zero0 = 0; for (int d = 0; d <= W; d++) if (wrapu(w0 + d) == 0) zero0 = 1;
           if (quick && seam0 && zero0 && (w0 + W) % 5) continue; }          /* quick: a fifth of the loops across both meridians (the known finding) */
@@ -41,3 +60,4 @@ int main(int argc, char **argv) {
     }
     vt_close(); return 0;
 }
+#endif
